@@ -1,20 +1,20 @@
 CONSTANTS
   Procs = {1}
   Clients = {"c1", "c2"}
-  Forms = {"v4", "v6m"}
-  CCs = {"a"}
-  SVs = {"bare", "good"}
+  Forms = {"v4"}
+  CCs = {}
+  SVs = {}
   Shorts = {}
   Protos = {"udp"}
-  Questions = {"fresh"}
-  Entries = {"msg", "wire", "inline"}
-  Exempts = {}
+  Questions = {"q1", "al1", "al2"}
+  Entries = {"msg", "wire"}
+  Exempts = {"internal"}
   Odds = {FALSE}
-  Burst = 2
-  StoreCap = 4
-  EntryBurst = 0
+  Burst = 4
+  StoreCap = 2
+  EntryBurst = 2
   BigQs = {}
-  MaxOps = 12
+  MaxOps = 14
   MaxPend = 2
   MaxAge = 2
   TickSet = {1}
@@ -27,7 +27,7 @@ CONSTANTS
   SharedKey = FALSE
   ChargeBeforeFit = FALSE
   LimitInternal = FALSE
-  Aliases = {}
+  Aliases = {"al1", "al2"}
   AliasTarget = "q1"
 INIT Init
 NEXT Next
